@@ -66,13 +66,15 @@ def _on_alarm(signum, frame):
 
 @contextlib.contextmanager
 def alarm(seconds: float):
-    old = signal.signal(signal.SIGALRM, _on_alarm)
-    signal.setitimer(signal.ITIMER_REAL, seconds)
+    """per-case hang guard.  Counts CPU time of this process (ITIMER_PROF), not wall-clock time, so a
+    starved worker on a loaded machine does not raise a false alarm; code under test never sleeps."""
+    old = signal.signal(signal.SIGPROF, _on_alarm)
+    signal.setitimer(signal.ITIMER_PROF, seconds)
     try:
         yield
     finally:
-        signal.setitimer(signal.ITIMER_REAL, 0)
-        signal.signal(signal.SIGALRM, old)
+        signal.setitimer(signal.ITIMER_PROF, 0)
+        signal.signal(signal.SIGPROF, old)
 
 
 # --------------------------------------------------------------------------
